@@ -13,6 +13,9 @@ def run(tier, seed, update_lock=False):
     units = [K.util_unit(), Unit('trim[renumber]', CTR.registry(True)), Unit('trim[in-place]', CTR.registry(False)),
              Unit('tpt-flux[dense]', CTP.registry(), keys=[CTP.F + '_get_data_from_tprob', CTP.F + 'reactive_fluxes', CTP.F + 'net_fluxes']),
              Unit('builders-dense', CBU.registry('scalar', True), keys=[CBU.F + 'transpose', CBU.F + '_row_normalize', CBU.F + '_apply_prior_counts', CBU.F + 'normalize'])]
+    from contracts import ra_index as RI, tpt_path as TPP
+    units += [Unit('ra-index', RI.registry()), Unit('ra-2d-slice[]', RI.registry_iis(True, True, True, exclude={'ra-2d-slice-empty-row'})),
+              Unit('path-removal', TPP.registry()), Unit('paths[subtract]', TPP.registry_paths('subtract', False), keys=[TPP.F + 'paths'])]
     for kind in ('euclidean', 'manhattan', 'hamming'):
         units.append(Unit('%s[out=none]' % kind, CL.registry(kind, 'none'), keys=[CL.F + kind, CL.F + '_' + kind]))
     for u in units:
